@@ -55,7 +55,9 @@ pub fn replay(case: &Value) -> Vec<Violation> {
         "issue" | "pipeline" => crate::pipeline::replay_case(case),
         "weak_selection" => c06::replay_weak(case),
         "reused_holder" => c06::replay_reused(case),
+        "reused_issuer" => c05::replay_reused(case),
         "c12_order" => c12::replay_order(),
+        "c12_history" => c12::replay_history(case),
         "c12_run_dup" => c12::replay_run_dup(case),
         "reserved" => c13::replay(case),
         "c16" => c16::replay(case),
@@ -68,7 +70,7 @@ pub fn replay(case: &Value) -> Vec<Violation> {
         "c11_issuer" | "c11_holder" => c11::replay(case),
         "c04" | "c04_text" => c04::replay(case),
         "c08" => c08::replay(case),
-        "c02" | "c02_key" | "c02_control" | "c02_iss" => c02::replay(case),
+        "c02" | "c02_key" | "c02_control" | "c02_iss" | "c02_iss_pair" => c02::replay(case),
         k => {
             eprintln!("replay: unknown case kind {k}");
             vec![]
